@@ -14,7 +14,8 @@ for f in sorted(glob.glob(os.path.join(HERE, 'seeded', '*', 'meta.json'))):
           ev.get('demo_patched_rc') not in (0, None) and ev.get('tests_match_baseline'))
     rows.append((sid, m.get('breaks_property', '?'), (m.get('summary') or '')[:110].replace('|', '/'),
                  (m.get('needs') or '')[:110].replace('|', '/'),
-                 'yes' if ok else 'NO', 'DETECTED' if ev.get('detected') else 'missed',
+                 'yes' if ok else 'NO',
+                 'DETECTED' if ev.get('detected') else ('silent: judged not a violation' if m.get('judgement') else 'missed'),
                  ', '.join(keys[:3])))
 with open(os.path.join(HERE, 'seeded', 'SUMMARY.md'), 'w') as out:
     out.write('# Seeded property-breaking changes (written by fresh sub-agents from the property text only)\n\n')
